@@ -12,8 +12,11 @@ import (
 	"golang.org/x/tools/go/ssa"
 )
 
+const fairK = 40
+
 type thread struct {
 	id       int
+	streak   int // consecutive visible operations without being descheduled
 	m        *machine
 	fr       *frame
 	curInstr ssa.Instruction
@@ -137,8 +140,18 @@ func (m *machine) pickNext(cur *thread, what string) *thread {
 		}
 	}
 	if !m.exploreSched {
-		// deterministic: keep running cur while it can; else lowest id
+		// deterministic: keep running cur while it can (with the same
+		// fairness rule); else lowest id
 		if curEnabled {
+			if cur.streak >= fairK && len(en) > 1 {
+				cur.streak = 0
+				for _, t := range en {
+					if t != cur {
+						return t
+					}
+				}
+			}
+			cur.streak++
 			return cur
 		}
 		return en[0]
@@ -146,11 +159,31 @@ func (m *machine) pickNext(cur *thread, what string) *thread {
 	if len(en) == 1 {
 		return en[0]
 	}
+	// fairness: a thread that has executed fairK visible operations in a row
+	// while others are enabled is descheduled (not counted as a preemption):
+	// the real scheduler does not starve runnable goroutines for ever, and a
+	// spinning thread would otherwise run to the step budget on every path
+	if curEnabled && cur.streak >= fairK {
+		var others []*thread
+		for _, t := range en {
+			if t != cur {
+				others = append(others, t)
+			}
+		}
+		cur.streak = 0
+		k := 0
+		if len(others) > 1 {
+			k = m.chooseSym(len(others), "sched")
+		}
+		m.schedTrace = append(m.schedTrace, others[k].id)
+		return others[k]
+	}
 	// candidates: cur first (no preemption) then the others
 	var cands []*thread
 	if curEnabled {
 		cands = append(cands, cur)
 		if m.preemptions >= m.maxPreempt {
+			cur.streak++
 			return cur
 		}
 	}
@@ -165,6 +198,9 @@ func (m *machine) pickNext(cur *thread, what string) *thread {
 	k := m.chooseSym(len(cands), "sched")
 	if curEnabled && k != 0 {
 		m.preemptions++
+		cur.streak = 0
+	} else if curEnabled {
+		cur.streak++
 	}
 	m.schedTrace = append(m.schedTrace, cands[k].id)
 	return cands[k]
